@@ -87,3 +87,27 @@ Print Assumptions C04_exception_handler_first_match.
 Print Assumptions C04_exception_dispatch.
 Print Assumptions C04_independent_of_after.
 Print Assumptions C04_handler_failure_is_500.
+
+(* ---- translator tie: [state_from_table] and [error_from_table] used above
+   are equal to the definitions generated from the current
+   poorwsgi/wsgi.py (Application.state_from_table, error_from_table) by
+   harness/py2v_dispatch.py (gen/DispatchGen.v is rewritten on every check
+   run), over the primitives of lib/PyDispatch.v; [lift_resp]/[lift_opt]
+   only inject the model's result into the value type of the generated code *)
+Require Import PW.lib.PyDispatch PW.gen.DispatchGen PW.proofs.DispatchGenEq.
+
+Theorem C04_generated_state_from_table_is_model :
+  forall w a m code kw,
+    gen_state_from_table w a (DR m) (DV (PInt code)) kw
+    = (lift_resp (fst (state_from_table (w_known w) (w_builtin w) (w_page w) a m code)),
+       snd (state_from_table (w_known w) (w_builtin w) (w_page w) a m code)).
+Proof. exact gen_state_from_table_eq. Qed.
+Print Assumptions C04_generated_state_from_table_is_model.
+
+Theorem C04_generated_error_from_table_is_model :
+  forall w a m e,
+    gen_error_from_table w a (DR m) (DE e)
+    = (lift_opt (fst (error_from_table (w_known w) (w_isinst w) (w_builtin w) (w_page w) a m e)),
+       snd (error_from_table (w_known w) (w_isinst w) (w_builtin w) (w_page w) a m e)).
+Proof. exact gen_error_from_table_eq. Qed.
+Print Assumptions C04_generated_error_from_table_is_model.
